@@ -1697,13 +1697,13 @@ class C17(Property):
                     copt(cstr(obs["propsoff"][k]) if obs.get("propsoff") and k in obs["propsoff"] else None),
                     copt(cstr(obs["propson"][k]) if obs.get("propson") and k in obs["propson"] else None)))
             inter = ["(%s, %s)" % (cob(obs["inter"][f][0]), cob(obs["inter"][f][1])) for f in ("yaml", "toml") if f in (obs.get("inter") or {})]
-            ex = "(Some (mkExtra %s %s %s %s %s %s %s %s %s %s %s %s))" % (
+            ex = "(Some (mkExtra %s %s %s %s %s %s %s %s %s %s %s %s %s))" % (
                 clist(["(%s, %s)" % (cstr(e), cob(r)) for e, r in sorted(obs["byext"].items())]),
                 clist(["(%s, %s)" % (cstr(e), cob(r)) for e, r in sorted((obs.get("must") or {}).items())]),
                 cob(obs.get("fill")), copt(cob3(obs["envref"]) if obs.get("envref") else None),
                 copt(cob3(obs["envmust"]) if obs.get("envmust") else None),
                 clist(["(%s, %s)" % (cstr(e), cob(r)) for e, r in sorted((obs.get("depr") or {}).items())]),
-                clist(props), cbool(obs.get("retained", True)), clist(inter), info, clc(w.get("lc")), clc(w.get("lc2")))
+                clist(props), clist([cob(r) for r in obs.get("plain") or []]), cbool(obs.get("retained", True)), clist(inter), info, clc(w.get("lc")), clc(w.get("lc2")))
         return "CaseLoad %s %s %s %s %s %s %s %s %s %s %s %s" % (
             cfields(case["type"]), cdoc(case["doc"]),
             copt(cdoc(d2) if d2 else None),
